@@ -115,10 +115,12 @@ def check_condition(ctx, f, g, w, num=2):
     return le[0] if len(le) == 1 else None
 
 
-def check_flush(ctx, num=3):
+def check_flush(ctx, num=3, only=None):
     """K16 for the two grouping generators."""
     P = ctx.P
     for meth, keyattr, src_call in (("batch_by_arrival", "arrival_seconds", "batch_by_pipeline"), ("batch_by_pipeline", "pipeline_id", None)):
+        if only and meth not in only:
+            continue
         f = P.fn(CSV, f"CSVWorkloadReader.{meth}")
         ctx.touch(f)
         g = cfg_of(f, subst_env=False)
